@@ -858,7 +858,95 @@ pub fn check_c07_odd(ctx: &mut Ctx, mc: u8, count: u8, padding: u8, body: usize)
     }
 }
 
+/// SLI entries are three bit-fields of one word (13 + 13 + 6). `add_lost_macroblock` takes wider integers
+/// (`u16`, `u16`, `u8`) and the builder accepts every value, so a caller can hand a field a value it has no
+/// room for. What the RFC image of *that field* is, nobody says (the crate truncates; saturating or rejecting
+/// would be as defensible) – but each field "at its specified offset" still has to carry its own configured
+/// value whenever that value fits: an oversized neighbour must not spill into it. Compared per field, the
+/// oversized ones left alone.
+pub fn check_c07_sli_isolation(ctx: &mut Ctx, entries: &[(u16, u16, u8)], padding: u8, how: How) {
+    let cfg = Cfg::Fb { kind: FbKind::Payload, sender: 0x0102_0304, media: 0x0506_0708, fci: Fci::Sli(entries.to_vec()), padding };
+    let _case = crate::watchdog::case_cfg("c07", &cfg, how);
+    ctx.eval();
+    let bytes = match crate::drive::build_bytes(&cfg, how) {
+        Ok(b) => b,
+        Err(WOut::Err(_)) => {
+            ctx.class("c07:sli-oversized-field:builder-rejected");
+            return;
+        }
+        Err(other) => {
+            ctx.violate("serialise", "fb-sli", &other.class(), || cfg_case("c07", &cfg, how), "an accepted configuration serialises", format!("write_into gives {}", other.render()));
+            return;
+        }
+    };
+    ctx.class("c07:sli-oversized-field:ok");
+    let want_len = 12 + 4 * entries.len() + padding as usize;
+    let mut bad: Option<String> = None;
+    if bytes.len() != want_len {
+        bad = Some(format!("{} bytes written, the layout has {want_len}", bytes.len()));
+    } else {
+        for (i, e) in entries.iter().enumerate() {
+            let w = u32::from_be_bytes([bytes[12 + 4 * i], bytes[13 + 4 * i], bytes[14 + 4 * i], bytes[15 + 4 * i]]);
+            let got = ((w >> 19) as u16, ((w >> 6) & 0x1fff) as u16, (w & 0x3f) as u8);
+            if e.0 <= 0x1fff && got.0 != e.0 {
+                bad = Some(format!("entry {i}: First is {:#x}, configured {:#x} (entry {e:?}, word {w:#010x})", got.0, e.0));
+            } else if e.1 <= 0x1fff && got.1 != e.1 {
+                bad = Some(format!("entry {i}: Number is {:#x}, configured {:#x} (entry {e:?}, word {w:#010x})", got.1, e.1));
+            } else if e.2 <= 0x3f && got.2 != e.2 {
+                bad = Some(format!("entry {i}: PictureID is {:#x}, configured {:#x} (entry {e:?}, word {w:#010x})", got.2, e.2));
+            }
+            if bad.is_some() {
+                break;
+            }
+        }
+    }
+    if let Some(t) = bad {
+        ctx.violate(
+            "image",
+            "fb-sli",
+            "body;field-next-to-an-oversized-one",
+            || cfg_case("c07", &cfg, how),
+            "every SLI field whose configured value fits carries that value at its RFC 4585 offset",
+            format!("{t}; written {}", hex(&bytes[..bytes.len().min(64)])),
+        );
+    }
+    ctx.nontrivial(hash_of(&cfg));
+}
+
 pub fn run_c07(ctx: &mut Ctx, shard: usize, nshards: usize) {
+    // SLI fields next to a field that was given a value wider than its bit-field
+    {
+        let over16 = [0x2000u16, 0x3fff, 0x4000, 0x8000, 0xa555, 0xe000, 0xffff];
+        let in16 = [0u16, 1, 0x0aaa, 0x1555, 0x1000, 0x1fff];
+        let over8 = [0x40u8, 0x7f, 0x80, 0xc0, 0xff];
+        let in8 = [0u8, 1, 0x2a, 0x15, 0x3f];
+        let mut k = 0usize;
+        let mut lists: Vec<Vec<(u16, u16, u8)>> = vec![];
+        for &o in &over16 {
+            for &a in &in16 {
+                for &c in &in8 {
+                    lists.push(vec![(o, a, c)]);
+                    lists.push(vec![(a, o, c)]);
+                    lists.push(vec![(1, 2, 3), (a, o, c), (0x1fff, 0x1fff, 0x3f)]);
+                    lists.push(vec![(o, o, c), (a, a, c)]);
+                }
+            }
+        }
+        for &o in &over8 {
+            for &a in &in16 {
+                lists.push(vec![(a, 0x1fff - a, o)]);
+                lists.push(vec![(0, 0, o), (a, a, 0)]);
+                lists.push(vec![(0xffff, a, o)]);
+                lists.push(vec![(a, 0xffff, o)]);
+            }
+        }
+        for l in &lists {
+            k += 1;
+            if k % nshards == shard {
+                check_c07_sli_isolation(ctx, l, if k % 3 == 0 { 4 } else { 0 }, hows(k / nshards));
+            }
+        }
+    }
     // writers of third-party packet types that override the defaulted `MAX_COUNT` (custom::Odd): the image is the
     // model's image of an unknown packet with that count, for every legal count of the type
     if shard == 0 {
@@ -1359,6 +1447,81 @@ pub fn check_c17(ctx: &mut Ctx, cfg: &Cfg, how: How) {
                         return;
                     }
                     ctx.class("c17:concrete-type-path-compared");
+                }
+            }
+        }
+        // `write_into_unchecked` is public API too (it is what `write_into` and the compound writer delegate to, and
+        // what an application that has sized its buffer itself calls): on an accepted configuration and a buffer of
+        // at least the calculated size, the bytes it reports as written are the same for every previous content and
+        // everything behind them is left alone. (The length field it writes follows the buffer's length, as documented;
+        // that is the same for every prefill and no business of this property.)
+        if let Some(n) = n {
+            for l in [n, n + 4, n + 36] {
+                let mut bufs: Vec<Vec<u8>> = vec![];
+                let mut outs: Vec<Result<usize, crate::drive::Panicked>> = vec![];
+                for k in 0..3 {
+                    let mut b = vec![0u8; l];
+                    prefill(k, &mut b);
+                    let o = call(|| rtcp_types::prelude::RtcpPacketWriter::write_into_unchecked(w, &mut b));
+                    bufs.push(b);
+                    outs.push(o);
+                }
+                let case = || cfg_case("c17", cfg, how).set("buffer_len", l).set("call", "write_into_unchecked");
+                if outs.iter().any(|o| o.is_err()) {
+                    // an unwinding unchecked write on a large enough buffer: "never panics" is C06's clause
+                    ctx.class_dyn(format!("c17:other-property:unchecked-write-panics(C06):{kind}"));
+                    break;
+                }
+                let ms: Vec<usize> = outs.iter().map(|o| *o.as_ref().ok().unwrap()).collect();
+                ctx.class_dyn(format!("c17:unchecked-direct:{kind}:{}", if l > n { "slack" } else { "exact" }));
+                if ms[0] != ms[1] || ms[0] != ms[2] {
+                    ctx.violate("result-depends-on-prefill", kind, "unchecked-result", case, "same result for every prefill", format!("{ms:?}"));
+                    break;
+                }
+                if ms[0] > l {
+                    ctx.violate(
+                        "claimed-bytes-defined",
+                        kind,
+                        "unchecked-claims-more-than-the-buffer",
+                        case,
+                        format!("at most {l} bytes (the buffer) reported as written"),
+                        format!("write_into_unchecked returned {}", ms[0]),
+                    );
+                    break;
+                }
+                let m = ms[0];
+                if bufs[0][..m] != bufs[1][..m] || bufs[0][..m] != bufs[2][..m] {
+                    let d = (0..m).find(|&i| bufs[0][i] != bufs[1][i] || bufs[0][i] != bufs[2][i]).unwrap_or(0);
+                    ctx.violate(
+                        "claimed-bytes-defined",
+                        kind,
+                        if l > n { "unchecked-into-a-longer-buffer" } else { "unchecked-into-an-exact-buffer" },
+                        case,
+                        format!("the {m} bytes write_into_unchecked reports as written (calculate_size {n}, buffer {l}) do not depend on the previous buffer contents"),
+                        format!("byte {d} of {m} keeps the prefill: {} / {}", hex(&bufs[0][..m.min(64)]), hex(&bufs[1][..m.min(64)])),
+                    );
+                    break;
+                }
+                let mut stop = false;
+                for k in 0..3 {
+                    let mut exp = vec![0u8; l];
+                    prefill(k, &mut exp);
+                    if bufs[k][m..] != exp[m..] {
+                        let d = (m..l).find(|&i| bufs[k][i] != exp[i]).unwrap_or(m);
+                        ctx.violate(
+                            "bytes-beyond-n-untouched",
+                            kind,
+                            "unchecked-beyond-n",
+                            case,
+                            format!("bytes at and after {m} (what write_into_unchecked returned; buffer {l}) keep their previous contents"),
+                            format!("byte {d} changed from {:#04x} to {:#04x}", exp[d], bufs[k][d]),
+                        );
+                        stop = true;
+                        break;
+                    }
+                }
+                if stop {
+                    break;
                 }
             }
         }
